@@ -46,7 +46,9 @@ def gen_vec(ch, maxn):
 
 def case_args(ch):
     return {'kind': 'args', 'args': [a.hex() for a in gen_vec(ch, 200)], 'env': [e.hex() for e in gen_vec(ch, 120)],
-            'place': [ch.below(4096) * 4 + 8, ch.below(1 << 16)]}
+            'place': [ch.below(4096) * 4 + 8, ch.below(1 << 16)],
+            # edge placement: the string buffer / the pointer array / the size cells end exactly at the end of guest memory
+            'edge': ch.pick((None, None, 'buf', 'ptrs', 'sizes'))}
 
 
 def run_args(case):
@@ -58,9 +60,18 @@ def run_args(case):
         r = ag.init(args, env)
         if r != 'ok 1':
             return 'init', 'wasiInit failed: %r' % r
+        memsize = 512 * 65536
+        edge = case.get('edge')
         for unstable in (False, True):
             for which, vec in (('args', args), ('environ', env)):
                 ag.fill(W.RES, 32)
+                if edge == 'sizes':
+                    ag.fill(memsize - 16, 16)
+                    rc = ag.call(which + '_sizes_get', unstable, memsize - 8, memsize - 4)
+                    if rc != 0 or ag.peek_u32(memsize - 8) != len(vec) or ag.peek_u32(memsize - 4) != sum(len(v) + 1 for v in vec) \
+                            or ag.peek(memsize - 16, 8) != b'\xcd' * 8:
+                        return 'sizes-edge', '%s_sizes_get with result cells in the last 8 bytes of memory: errno %d, count %d, size %d' % (
+                            which, rc, ag.peek_u32(memsize - 8), ag.peek_u32(memsize - 4))
                 rc = ag.call(which + '_sizes_get', unstable, W.RES, W.RES + 8)
                 cnt, size = ag.peek_u32(W.RES), ag.peek_u32(W.RES + 8)
                 want_size = sum(len(v) + 1 for v in vec)
@@ -70,13 +81,19 @@ def run_args(case):
                     return 'overwrite', '%s_sizes_get wrote outside its two 4-byte results' % which
                 ptrs = 0x100000 + case['place'][0]
                 buf = 0x200000 + case['place'][1]
-                ag.fill(ptrs - 8, 4 * len(vec) + 16)
-                ag.fill(buf - 8, want_size + 16)
+                ptail = btail = 8
+                if edge == 'buf' and want_size:
+                    buf, btail = memsize - want_size, 0
+                elif edge == 'ptrs' and vec:
+                    ptrs, ptail = memsize - 4 * len(vec), 0
+                ag.fill(ptrs - 8, 4 * len(vec) + 8 + ptail)
+                ag.fill(buf - 8, want_size + 8 + btail)
                 rc = ag.call(which + '_get', unstable, ptrs, buf)
                 if rc != 0:
-                    return 'get', '%s_get failed with errno %d' % (which, rc)
-                raw_p = ag.peek(ptrs - 8, 4 * len(vec) + 16)
-                raw_b = ag.peek(buf - 8, want_size + 16)
+                    return 'get', '%s_get failed with errno %d (pointer array at 0x%x, %d entries; string buffer at 0x%x, %d bytes; memory size 0x%x)' % (
+                        which, rc, ptrs, len(vec), buf, want_size, memsize)
+                raw_p = ag.peek(ptrs - 8, 4 * len(vec) + 8 + ptail) + b'\xcd' * (8 - ptail)
+                raw_b = ag.peek(buf - 8, want_size + 8 + btail) + b'\xcd' * (8 - btail)
                 if raw_p[:8] != b'\xcd' * 8 or raw_p[-8:] != b'\xcd' * 8 or raw_b[:8] != b'\xcd' * 8 or raw_b[-8:] != b'\xcd' * 8:
                     return 'overwrite', '%s_get wrote outside the pointer array / string buffer' % which
                 off = buf
@@ -105,12 +122,12 @@ def case_misc(ch):
     for _ in range(4 + ch.below(12)):
         k = ch.below(10)
         if k < 4:
-            ops.append(['clock', ch.pick((0, 1, 1, 2, 3)), ch.pick((0, 1, 1000, 1 << 40)), bool(ch.below(2))])
+            ops.append(['clock', ch.pick((0, 1, 1, 2, 3)), ch.pick((0, 1, 1000, 1000000, 10000000, 1 << 40)), bool(ch.below(2)), ch.below(4) == 0])
         elif k < 6:
             ops.append(['badclock', ch.pick((4, 5, 255, 0x7fffffff, 0x80000000, 0xffffffff, 4 + ch.bits(31))), bool(ch.below(2))])
         else:
             ops.append(['random', ch.pick((0, 1, 63, 64, 255, 256, 257, 300, 4096, 65536, 1 << 20, 1 + ch.below(5000), 256 * (1 + ch.below(9)))),
-                        ch.below(1 << 12), bool(ch.below(2))])
+                        ch.below(1 << 12), bool(ch.below(2)), ch.below(4) == 0])
     ops.append(['exit', ch.pick((0, 1, 2, 42, 97, 98, 99, 100, 127, 128, 200, 255, ch.below(256))), bool(ch.below(2))])
     return {'kind': 'misc', 'ops': ops}
 
@@ -123,12 +140,13 @@ def run_misc(case):
         ag.init([b'p'], [])
         for op in case['ops']:
             if op[0] == 'clock':
-                _, cid, prec, unstable = op
+                _, cid, prec, unstable = op[:4]
+                cell = (64 * 65536 - 8) if (len(op) > 4 and op[4]) else W.RES        # result cell in the last 8 bytes of memory
                 ag.fill(W.RES, 24)
                 t0 = ag.now(cid)
-                rc = ag.call('clock_time_get', unstable, cid, prec, W.RES)
+                rc = ag.call('clock_time_get', unstable, cid, prec, cell)
                 t1 = ag.now(cid)
-                v = ag.peek_u64(W.RES)
+                v = ag.peek_u64(cell)
                 if rc != 0:
                     return 'clock', 'clock_time_get(%d) failed with errno %d' % (cid, rc)
                 if not (t0 <= v <= t1):
@@ -145,13 +163,16 @@ def run_misc(case):
                 if rc != W.E['INVAL']:
                     return 'clock-id', 'clock_time_get with unknown clock id %d returned %d, expected EINVAL' % (cid, rc)
             elif op[0] == 'random':
-                _, ln, place, unstable = op
+                _, ln, place, unstable = op[:4]
                 base = 0x40000 + place
-                ag.fill(base - 64, ln + 128)
+                tail = 64
+                if len(op) > 4 and op[4] and ln:
+                    base, tail = 64 * 65536 - ln, 0                                     # buffer ends at the end of memory
+                ag.fill(base - 64, ln + 64 + tail)
                 rc = ag.call('random_get', unstable, base, ln)
                 if rc != 0:
-                    return 'random-errno', 'random_get(len=%d) failed with errno %d (%s)' % (ln, rc, W.ename(rc))
-                raw = ag.peek(base - 64, ln + 128)
+                    return 'random-errno', 'random_get(len=%d at 0x%x) failed with errno %d (%s)' % (ln, base, rc, W.ename(rc))
+                raw = ag.peek(base - 64, ln + 64 + tail) + b'\xcd' * (64 - tail)
                 if raw[:64] != b'\xcd' * 64 or raw[64 + ln:] != b'\xcd' * 64:
                     return 'overwrite', 'random_get(len=%d) wrote outside [p, p+len)' % ln
                 body = raw[64:64 + ln]
@@ -282,12 +303,18 @@ def classify(case):
             out.append('args_empty_and_large')
         if len(v) >= 100:
             out.append('args_many')
+        if case.get('edge'):
+            out.append('args_object_ends_at_memory_end')
     elif case['kind'] == 'misc':
         for op in case['ops']:
             if op[0] == 'random' and op[1] > 256 and op[1] % 256:
                 out.append('random_len>256_not_multiple')
             if op[0] == 'badclock':
                 out.append('invalid_clock_id')
+            if op[0] in ('clock', 'random') and len(op) > 4 and op[4]:
+                out.append('result_or_buffer_ends_at_memory_end')
+            if op[0] == 'clock' and op[2] >= 1000000:
+                out.append('clock_coarse_precision')
     else:
         if case['T'] * case['K'] >= 8:
             out.append('spawn>=8_concurrent')
